@@ -17,11 +17,13 @@ def repeats : List String → Bool
   | [] => false
   | n :: ns => ns.contains n || repeats ns
 
-def valOf : Sexp → Option Val
+partial def valOf : Sexp → Option Val
   | .atom "u" => some .undef
   | .list [.atom "i", n] => n.int?.map .int
   | .list [.atom "s", s] => s.str?.map .str
   | .list [.atom "b", b] => b.bool?.map .bool
+  | .list [.atom "f", n] => n.int?.map .float          -- a Float, in quarters
+  | .list (.atom "a" :: es) => (es.mapM valOf).map (fun vs => vs.foldr Val.acons Val.anil)
   | _ => none
 
 partial def tyOf : Sexp → Option Ty
@@ -29,7 +31,15 @@ partial def tyOf : Sexp → Option Ty
   | .atom "str" => some .str
   | .atom "bool" => some .bool
   | .atom "any" => some .any
+  | .atom "float" => some .float
+  | .atom "undef" => some .undefT
   | .list [.atom "opt", t] => (tyOf t).map .opt
+  | .list [.atom "nu", t] => (tyOf t).map .notUndef
+  | .list [.atom "var", a, b] => do
+    let a' ← tyOf a
+    let b' ← tyOf b
+    pure (.variant a' b')
+  | .list [.atom "arr", t] => (tyOf t).map .array
   | _ => none
 
 def kindOf : Sexp → Option Kind
@@ -81,13 +91,14 @@ def eitOf : Sexp → Option (Option Bool)
   | .atom "f" => some (some false)
   | _ => none
 
-/-- a `constants` entry: a value whose inferred type is in the alphabet -/
+/-- a `constants` entry: a value whose inferred type is in the alphabet (Integer, String, Boolean, Float, Undef) -/
 def constOf : Sexp → Option (String × Val)
   | .list [k, v] => do
     let k' ← nameOf k
     let v' ← valOf v
     match v' with
-    | .undef => none
+    | .anil => none            -- an array: the type inferred for it is outside the alphabet
+    | .acons _ _ => none
     | _ => pure (k', v')
   | _ => none
 
@@ -273,6 +284,16 @@ def exec : List Sexp → String
       | some env =>
         let obs := runActs env [] acts
         " ; ".intercalate (head :: obs ++ [reinit defs env acts obs])
+    | _, _ => "bad-op"
+  -- `asg T U`: IsAssignable(T, U) on the alphabet
+  | [.atom "asg", a, b] =>
+    match tyOf a, tyOf b with
+    | some a', some b' => boolStr (asg a' b')
+    | _, _ => "bad-op"
+  -- `tinst T V`: IsInstance(T, V)
+  | [.atom "tinst", t, v] =>
+    match tyOf t, valOf v with
+    | some t', some v' => boolStr (inst t' v')
     | _, _ => "bad-op"
   | _ => "bad-op"
 
